@@ -94,7 +94,18 @@ type suite struct {
 
 var suites = map[string]suite{}
 
+// childHooks let a suite re-exec this binary to run one dangerous input in isolation.
+var childHooks []func(args []string) bool
+
 func main() {
+	if len(os.Args) > 1 && strings.HasPrefix(os.Args[1], "-child-") {
+		for _, h := range childHooks {
+			if h(os.Args[1:]) {
+				return
+			}
+		}
+		os.Exit(3)
+	}
 	var (
 		seed   = flag.Uint64("seed", 1, "PRNG seed")
 		n      = flag.Int("n", 1000, "number of generated cases")
